@@ -142,6 +142,73 @@ func c03DoFirst(c *Client, url string, stream bool, cc *c03Caller) (first, ferr 
 	return c03DoFirstM(c, "GET", url, stream, cc)
 }
 
+// c03First is what the caller of the first request observed.
+type c03First struct {
+	ok         bool   // the call and the body read both succeeded
+	status     int    // response status when a response head was delivered
+	body       []byte // the body (ok) or the bytes delivered before the read error (streaming caller)
+	callFailed bool   // the call itself returned an error (no response head)
+	err        string
+}
+
+// render is the historical "ok body=…" / "fail" form.
+func (f c03First) render() (string, string) {
+	if f.ok {
+		return "ok body=" + string(f.body), ""
+	}
+	return "fail", f.err
+}
+
+// c03DoFirstX performs the first request of an HTTP/2 / HTTP/3 cut case under the caller mode (or
+// as a streaming caller, which also reports how many bytes it was handed before a read error).
+func c03DoFirstX(c *Client, method, url string, stream bool, cc *c03Caller) (f c03First) {
+	rq := c.R()
+	if !stream {
+		cc.prepRequest(rq)
+	}
+	var resp *Response
+	var err error
+	if method == "HEAD" {
+		resp, err = rq.Head(url)
+	} else {
+		resp, err = rq.Get(url)
+	}
+	if resp != nil && resp.Response != nil {
+		f.status = resp.StatusCode
+	}
+	if err != nil {
+		f.callFailed, f.err = true, err.Error()
+		return f
+	}
+	if resp == nil || resp.Response == nil {
+		f.callFailed, f.err = true, "nil response without error"
+		return f
+	}
+	if stream {
+		var b bytes.Buffer
+		_, rerr := b.ReadFrom(resp.Body)
+		resp.Body.Close()
+		f.body = b.Bytes()
+		if rerr != nil {
+			f.err = "body read: " + rerr.Error()
+			return f
+		}
+		f.ok = true
+		return f
+	}
+	if resp.Err != nil {
+		f.err = resp.Err.Error()
+		return f
+	}
+	f.ok = true
+	if cc.savesBody() {
+		f.body = cc.saved()
+	} else {
+		f.body = resp.Bytes()
+	}
+	return f
+}
+
 func c03DoFirstM(c *Client, method, url string, stream bool, cc *c03Caller) (first, ferr string) {
 	first = "fail"
 	rq := c.R()
